@@ -289,6 +289,8 @@ def corpus(exp_copy_assign=True):
     # seeded changes caught in round 2 (follow-up 4): indicates_error casting enums to int; tuple_cat result type decayed
     cs.append(("corpus-err-wide-enum", ["type err F", "run 5"]))
     cs.append(("corpus-tuple-cat-references", ["type tup F", "static"]))
+    # round-7 seeds: aligned_storage() = default (manual_box no longer constant-initialised); expected() uses new T instead of T{}
+    cs.append(("corpus-init-static-box-and-arena", ["type init F", "run"]))
     cs.append(("corpus-thr-sweep", ["type thr F", "sweep 5 6"]))
     # seeded change caught in round 2: manual_box::initialize with T{args...} (vector<int>(3, 7) became {3, 7})
     cs.append(("corpus-il-initialize-braces", ["type il F", "fwd 3 7", "one 3"]))
